@@ -10,6 +10,17 @@ CACHE = VERIF / ".cache"
 COQ = VERIF / "coq"
 NPROC = int(os.environ.get("VERIF_JOBS", "16"))
 
+
+def evidence_dir():
+    """/verif/evidence describes /repo only.  A run against another tree (VERIF_REPO: the scratch copies the seed tools
+    make) writes its evidence under .cache/, so a trial of a changed copy can never replace the committed record of the
+    clean tree (that happened once: the snapshot of 2026-10-01 19:01 carried the evidence of ten seed trials)."""
+    if os.environ.get("VERIF_EVIDENCE_DIR"):
+        return Path(os.environ["VERIF_EVIDENCE_DIR"])
+    if REPO.resolve() != Path("/repo"):
+        return CACHE / "evidence-other-tree"
+    return VERIF / "evidence"
+
 INCLUDES = ["config", "src/inc/api", "src/inc/internal", "src/hal/inc", "src/common/inc",
             "src/file-service"]
 LIB_SOURCES = [
